@@ -1,5 +1,6 @@
 import GBProofs.Harmonics
 import GBProofs.SphericalNorm
+import GBProofs.SphRotation
 
 /-!
 # C10 — the Cartesian-to-spherical matrix is the set of real regular solid harmonics
@@ -23,5 +24,10 @@ theorem rows_orthonormal (l : ℕ) (hl : l ≤ 10) (labels : List String) (ls : 
     (h : validSphOrder l labels = some ls) (i j : ℕ) (hi : i < ls.length) (hj : j < ls.length) :
     gram l (defaultCart l) ls[i] ls[j] = if i = j then 1 else 0 :=
   rows_orthonormal_valid l hl labels ls h i j hi hj
+
+/-- the `2l+1` generated functions are *the* solid harmonics: they span the whole space of homogeneous harmonic polynomials of
+degree `l` (whose dimension is `2l+1`) -/
+alias span_all_harmonics := sphFam_span
+alias harmonic_space_dimension := finrank_Harm
 
 end GB.C10
